@@ -1,0 +1,13 @@
+//go:build verif
+
+package security
+
+import "time"
+
+// VerifSetExpiration moves a session entry's expiry to t (virtual time for the
+// verification harness; build tag verif only).
+func (s *SessionEntry) VerifSetExpiration(t time.Time) {
+	s.mu.Lock()
+	defer s.mu.Unlock()
+	s.expiration = t
+}
